@@ -14,6 +14,13 @@ _AXIOMS = []
 _CFG = {}
 
 
+class _Part:
+    """one conjunct of a conjunctive goal, solved like an obligation of its own"""
+    def __init__(self, o, goal):
+        self.pc, self.goal, self.pure, self.verdict = o.pc, goal, getattr(o, "pure", False), None
+        self.fx = getattr(o, "fx", None)
+
+
 def _mk_solver(o, timeout_ms, mbqi=True, rel0=False):
     s = z3.Solver()
     s.set("timeout", timeout_ms)
@@ -81,9 +88,24 @@ def py_of_model(m, v, heap, depth=0):
 
 def _work(i):
     o = _OBLS[i]
-    t0 = time.time()
     if o.verdict == "unsat":
         return i, "unsat", "simplifier", 0.0, None
+    g = z3.simplify(o.goal)
+    if z3.is_and(g) and not getattr(o, "pure", False):
+        # a conjunctive goal is discharged conjunct by conjunct: different conjuncts may need different solver configurations
+        t0 = time.time()
+        backends = set()
+        for ch in g.children():
+            _, v, b, _, w = _work_one(i, _Part(o, ch))
+            backends.add(b)
+            if v != "unsat":
+                return i, v, b, time.time() - t0, w
+        return i, "unsat", "+".join(sorted(backends)), time.time() - t0, None
+    return _work_one(i, o)
+
+
+def _work_one(i, o):
+    t0 = time.time()
     try:
         if getattr(o, "pure", False) and _CFG.get("cvc5", True):
             # pure (string) lemmas: cvc5 first, it is the stronger string solver
